@@ -368,7 +368,7 @@ func (e *TermEval) read(st tstore, v tval) *T {
 	}
 	c, ok := st[v.obj]
 	if !ok {
-		c = Sym(v.obj.name)
+		c = e.structTerm(st, v.obj, 0)
 	}
 	if v.lo != nil {
 		hi := v.hi
@@ -378,6 +378,35 @@ func (e *TermEval) read(st tstore, v tval) *T {
 		return simplify(&T{Op: "slice", Args: []*T{c, v.lo, hi}})
 	}
 	return c
+}
+
+// structTerm renders an object that has no content of its own but fields with content (a struct built field by
+// field) as {f: term, …}; otherwise its name.
+func (e *TermEval) structTerm(st tstore, o *tobj, depth int) *T {
+	if depth > 3 || len(o.kids) == 0 || !strings.HasPrefix(o.name, "alloc:") {
+		return Sym(o.name)
+	}
+	var keys []string
+	for k := range o.kids {
+		keys = append(keys, k)
+	}
+	sort.Strings(keys)
+	var args []*T
+	for _, k := range keys {
+		kid := o.kids[k]
+		c, ok := st[kid]
+		if !ok {
+			c = e.structTerm(st, kid, depth+1)
+			if c.Op == "sym" && c.Name == kid.name {
+				continue
+			}
+		}
+		args = append(args, &T{Op: "field:" + k, Args: []*T{c}})
+	}
+	if len(args) == 0 {
+		return Sym(o.name)
+	}
+	return &T{Op: "struct", Args: args}
 }
 
 func (o *tobj) kid(k string) *tobj {
